@@ -489,7 +489,8 @@ class Helpers(Part):
         return st.fixed_dictionaries({
             "name": st.sampled_from(HELPERS),
             "via": st.sampled_from(["define", "repeat", "argument",
-                                    "global"]),
+                                    "global", "codeblock_param",
+                                    "lambda_param"]),
             "read": st.sampled_from(["interp", "content", "attribute",
                                      "condition"]),
         })
@@ -510,6 +511,13 @@ class Helpers(Part):
             return '<i tal:define="global %s \'v\'"/><i>%s</i>' % (n, r)
         if case["via"] == "repeat":
             return '<i tal:repeat="%s (\'v\',)">%s</i>' % (n, r)
+        if case["via"] == "codeblock_param":
+            # a function parameter of that name elsewhere in the template
+            return ("<?python\ndef fn(%s):\n    return %s\n?><i>%s</i>"
+                    % (n, n, r))
+        if case["via"] == "lambda_param":
+            return ('<i tal:define="fn lambda %s: (lambda q: %s)(1)">%s</i>'
+                    % (n, n, r))
         return "<i>%s</i>" % r
 
     def expected(self, case):
@@ -534,7 +542,8 @@ class Helpers(Part):
         if not o.ok:
             return Mismatch("helpers:compile raises " + o.exc_name,
                             dict(detail, outcome=o.brief()))
-        env = {case["name"]: "v"} if case["via"] == "argument" else {}
+        env = {case["name"]: "v"} if case["via"] in (
+            "argument", "codeblock_param", "lambda_param") else {}
         o = run(o.value.render, **env)
         bucket = None
         if not o.ok:
